@@ -45,7 +45,8 @@ func verifC11Loop(nItems int) {
 	var kind, src [3]int
 	var val [3]int64
 	for k := 0; k < nItems; k++ {
-		kind[k], src[k], val[k] = nondetIntIn(0, 1), nondetIntIn(0, 1), int64(nondetIntIn(1, 9))
+		// kinds: 0 metric batch of one source, 1 event, 2 metric batch with one series of EACH source
+		kind[k], src[k], val[k] = nondetIntIn(0, 2), nondetIntIn(0, 1), int64(nondetIntIn(1, 9))
 	}
 	var answerFirst int   // which outstanding lookup is answered first
 	var answerOK [2]bool  // does the lookup for source i find the instance
@@ -63,7 +64,17 @@ func verifC11Loop(nItems int) {
 	var wantEvents [2]int
 	dispatch := func(k int) {
 		s := verifSources[src[k]]
-		if kind[k] == 0 {
+		if kind[k] == 2 {
+			mm := gostatsd.NewMetricMap(false)
+			mm.Counters["c"] = map[string]gostatsd.Counter{
+				"s:" + string(verifSources[0]): {Value: val[k], Source: verifSources[0], Timestamp: 1},
+				"s:" + string(verifSources[1]): {Value: val[k] + 10, Source: verifSources[1], Timestamp: 1},
+			}
+			ch.DispatchMetricMap(ctx, mm)
+			wantTotal[0] += val[k]
+			wantTotal[1] += val[k] + 10
+			verifReach("mixed-batch")
+		} else if kind[k] == 0 {
 			mm := gostatsd.NewMetricMap(false)
 			mm.Counters["c"] = map[string]gostatsd.Counter{"": {Value: val[k], Source: s, Timestamp: 1}}
 			ch.DispatchMetricMap(ctx, mm)
@@ -105,12 +116,13 @@ func verifC11Loop(nItems int) {
 		var t int64
 		n := 0
 		for k := 0; k < upTo; k++ {
-			if src[k] == i {
-				if kind[k] == 0 {
-					t += val[k]
-				} else {
-					n++
-				}
+			switch {
+			case kind[k] == 2:
+				t += val[k] + int64(10*i)
+			case src[k] == i && kind[k] == 0:
+				t += val[k]
+			case src[k] == i:
+				n++
 			}
 		}
 		return t, n
@@ -177,13 +189,17 @@ func verifC11Loop(nItems int) {
 	if first < nItems {
 		// one more item while lookups are outstanding: no second lookup for a source already asked about
 		dispatch(nItems - 1)
-		i := src[nItems-1]
-		if cache.content[i] == 0 && !needs[i] {
-			ip := <-cache.ipSink
-			verifAssert(ip == verifSources[i], "a lookup is requested for the new unknown source")
-			needs[i] = true
-			asked[i]++
-			verifSettle()
+		for i := 0; i < 2; i++ {
+			if kind[nItems-1] != 2 && src[nItems-1] != i {
+				continue
+			}
+			if cache.content[i] == 0 && !needs[i] {
+				ip := <-cache.ipSink
+				verifAssert(cache.content[verifSrcIndex(ip)] == 0 && !needs[verifSrcIndex(ip)], "a lookup is requested for a new unknown source only")
+				needs[verifSrcIndex(ip)] = true
+				asked[verifSrcIndex(ip)]++
+				verifSettle()
+			}
 		}
 		noMore("a second lookup is requested for a source whose lookup is outstanding")
 		verifReach("late-item")
